@@ -1,7 +1,7 @@
 (* wire glue for engine 107 (row codec, property C07) *)
 (* WIRE engine=107 fn=dispatch_c07 *)
 From Coq Require Import List NArith Bool.
-From RPFT Require Import Base.Sexp Base.PyStr Base.Result Gen.Tables Cell.Cell Row.Ty Row.Layout Row.RowParse Row.RowUnparse Row.FlowRow Row.RoundTrip.
+From RPFT Require Import Base.Sexp Base.PyStr Base.Result Gen.Tables Cell.Cell Row.Ty Row.Layout Row.RowParse Row.RowUnparse Row.FlowRow Row.RoundTrip Row.CtxRoundTripFacts Row.FlowRowFacts.
 Import ListNotations.
 Local Open Scope N_scope.
 
@@ -44,6 +44,12 @@ Definition dispatch_c07 (fn : N) (args : list sexp) : sexp :=
     match dec_rowmodel m, dec_value 64 v, dec_strs t with
     | Some m', Some v', Some t' => enc_bool (row_dom (rm_ty m') v' t')
     | _, _, _ => s_badinput
+    end
+  (* 7: the domain of the flow-row round-trip theorem (flow_dom) *)
+  | 7, [v] =>
+    match dec_value 64 v with
+    | Some v' => enc_bool (flow_dom v')
+    | None => s_badinput
     end
   | _, _ => s_badinput
   end.
